@@ -6,7 +6,8 @@ from . import common as C
 
 LEVEL = "fault_enumeration"
 RULE = ("for each seeded problem (noise modes det/auto/he x geometries) an unfaulted reference run tags every target call with its "
-        "phase (start point, noise-test repeat, initial design, search step, poll step, final re-sampling); the same problem is then "
+        "phase (start point, noise-test repeat, initial design, search step, poll step, final re-sampling; under specified noise also RE-OBSERVATIONS of an already logged point, "
+        "found from a reference run of a tight, coarse-mesh problem); the same problem is then "
         "re-run with a target that misbehaves at its k-th call ONLY: quick = 2 positions per phase, thorough = EVERY k; fault kinds: "
         "raise {ValueError, RuntimeError, ZeroDivisionError, LinAlgError, KeyError, IndexError, custom exception with non-trivial "
         "constructor}; return NaN, +inf, -inf, complex, length-2 array, list, None, empty array, np.nan scalar; with specified noise: "
@@ -36,6 +37,13 @@ def cases(tier, seed):
                              land=str(rng.choice(["quad", "sphere", "l1"])), where="in", mode=mode, cons=cons, options=opts, sigma=0.3,
                              noise_src="private", max_fun_evals=int(rng.choice([42, 50, 60])) if mode == "det" else int(rng.choice([50, 60])))
         out.append({"spec": spec, "positions": "2perphase" if tier == "quick" else "all", "pseed": int(rng.integers(1 << 30))})
+    # specified noise + repeated points: the faulty call is a RE-OBSERVATION of an already logged point (merge path)
+    for j in range(4 if tier == "quick" else 16):
+        rng = gen.rng_for(seed, "C10", 5000 + j)
+        spec = gen.make_spec(rng, D=int(rng.choice([1, 1, 2])), geom=str(rng.choice(["tight", "lin"])), x0mode="in", land=str(rng.choice(["sphere", "l1", "ramp"])),
+                             where=str(rng.choice(["onb", "out"])), mode="he", sigma=0.3, noise_src="private", max_fun_evals=int(rng.choice([80, 110])),
+                             options={"noise_final_samples": 1, "tol_mesh": float(rng.choice([0.25, 0.1]))})
+        out.append({"spec": spec, "positions": "repeats", "pseed": int(rng.integers(1 << 30))})
     return out
 
 
@@ -52,7 +60,19 @@ def run_case(case):
     mode = spec["noise"]["mode"]
     kinds = RAISES + VALS + (HE if mode == "he" else [])
     rs = np.random.RandomState(case["pseed"])
-    if case["positions"] == "all":
+    seen_u = set()
+    repeat_ks = []
+    for i, e in enumerate(ref.calls):
+        if e.get("u") is None or e.get("record") is False:
+            continue
+        b_ = e["u"].tobytes()
+        if b_ in seen_u:
+            repeat_ks.append(i)
+        seen_u.add(b_)
+    if case["positions"] == "repeats":
+        ks = repeat_ks[:4] if case.get("positions") == "repeats" else []
+        phases = [("repeat:" + p) if i in set(repeat_ks) else p for i, p in enumerate(phases)]
+    elif case["positions"] == "all":
         ks = list(range(N))
     else:
         ks = []
@@ -74,6 +94,8 @@ def run_case(case):
                 continue
             delivered += 1
             ph = f.get("phase")
+            if k in set(repeat_ks):
+                ph = "repeat:" + str(ph)
             matrix[(ph, kind)] = matrix.get((ph, kind), 0) + 1
             ctx = {"k": k, "kind": kind, "phase": ph, "mode": mode, "N_reference": N, "status": rec["status"], "exc": rec.get("exc")}
             if rec["status"] != "exception":
